@@ -158,42 +158,10 @@ func callInstr(l Lit) ssa.CallInstruction {
 //   "call"        result of a call (delegation); the call term is returned
 //   "unknown"
 func (c *Check) retKind(fa *FuncAnalysis, r *ssa.Return, idx int) (string, *Term) {
-	p := c.p
 	if idx >= len(r.Results) {
 		return "unknown", nil
 	}
-	v := r.Results[idx]
-	t := p.T(v)
-	if t.Op == "const" {
-		return "const:" + t.Name, t
-	}
-	alts := t.Alts()
-	allNew := len(alts) > 0
-	for _, a := range alts {
-		call := ResultOf(a, -1)
-		if call == nil || !p.IsCall(call, "fmt.Errorf", "errors.New") {
-			allNew = false
-		}
-	}
-	if allNew {
-		return "nonnil", t
-	}
-	// guarded by a nil test on the same value
-	same := func(pos bool) LitPat {
-		return func(l Lit) bool {
-			return l.T.Op == "isnil" && l.Pos == pos && l.T.Args[0].V == v
-		}
-	}
-	if ok, _ := fa.Gated(r, same(false)); ok {
-		return "nonnil", t
-	}
-	if ok, _ := fa.Gated(r, same(true)); ok {
-		return "nil", t
-	}
-	if call := ResultOf(t, -1); call != nil {
-		return "call", call
-	}
-	return "unknown", t
+	return c.valKind(fa, r, r.Results[idx])
 }
 
 // pkgConst resolves a constant of any loaded package (e.g. zk.FlagEphemeral).
@@ -268,6 +236,9 @@ func (c *Check) valKind(fa *FuncAnalysis, at ssa.Instruction, v ssa.Value) (stri
 	allNew := len(alts) > 0
 	for _, a := range alts {
 		call := ResultOf(a, -1)
+		if a.Op == "global" && p.sentinelError(a) {
+			continue
+		}
 		if call == nil || !p.IsCall(call, "fmt.Errorf", "errors.New") {
 			allNew = false
 		}
@@ -348,4 +319,35 @@ func recvArgs(ci ssa.CallInstruction) (ssa.Value, []ssa.Value) {
 		return c.Args[0], c.Args[1:]
 	}
 	return nil, c.Args
+}
+
+// sentinelError: t loads a package-level error variable that is initialised once,
+// in its package initialiser, with errors.New / fmt.Errorf (hence non-nil).
+func (p *Prog) sentinelError(t *Term) bool {
+	ld, ok := t.V.(*ssa.UnOp)
+	if !ok {
+		return false
+	}
+	g, ok := ld.X.(*ssa.Global)
+	if !ok {
+		return false
+	}
+	n, good := 0, 0
+	for _, fn := range p.ModFuncs {
+		for _, b := range fn.Blocks {
+			for _, in := range b.Instrs {
+				st, ok := in.(*ssa.Store)
+				if !ok || st.Addr != ssa.Value(g) {
+					continue
+				}
+				n++
+				if fn.Name() == "init" {
+					if call := ResultOf(p.T(st.Val), -1); call != nil && p.IsCall(call, "errors.New", "fmt.Errorf") {
+						good++
+					}
+				}
+			}
+		}
+	}
+	return n == 1 && good == 1
 }
